@@ -114,6 +114,7 @@ func (a AV) key() string {
 func (a AV) eq(b AV) bool { return a.key() == b.key() }
 
 type WriteEvent struct {
+	Ins    ssa.Instruction
 	Fn     string
 	Pos    string
 	What   string
@@ -142,6 +143,7 @@ type RegionAnalysis struct {
 	curPos     string
 	traceN     int
 	stack      []string
+	lostTrack  bool // some write went through a pointer with no known region
 }
 
 func NewRegionAnalysis(p *Program) *RegionAnalysis {
@@ -253,7 +255,7 @@ func (ra *RegionAnalysis) write(fn *ssa.Function, ins ssa.Instruction, atoms Ato
 		}
 		return
 	}
-	ra.writes[k] = &WriteEvent{Fn: fnDisplay(fn), Pos: pos, What: what, Atoms: atoms, Detail: detail}
+	ra.writes[k] = &WriteEvent{Ins: ins, Fn: fnDisplay(fn), Pos: pos, What: what, Atoms: atoms, Detail: detail}
 }
 
 func shortPath(f, repo string) string {
@@ -864,7 +866,7 @@ func (ra *RegionAnalysis) externRegion(fn *ssa.Function, ins ssa.Instruction, na
 		// read-only over the tree
 	case strings.HasPrefix(name, "(*strings.Builder)."), strings.HasPrefix(name, "(*bytes.Buffer)."):
 		if len(args) > 0 {
-			ra.write(fn, ins, args[0].R&^aF, "buffer write via "+name, "")
+			ra.write(fn, ins, args[0].R, "buffer write via "+name, "")
 		}
 	case strings.HasPrefix(name, "(*github.com/sirupsen/logrus."), strings.HasPrefix(name, "github.com/sirupsen/logrus."):
 		// logger-private state only
@@ -942,4 +944,75 @@ func anyC(args []AV) bool {
 		}
 	}
 	return false
+}
+
+// regionModset: the mod-set of fn relative to its own entry, from the region analysis rooted
+// at fn (all pointer parameters caller-owned). Level 1 = only objects allocated during the call.
+func (p *Program) regionModset(u *Universe, fn *ssa.Function) *ModSet {
+	if ms, ok := p.regionMods[fn]; ok {
+		return ms
+	}
+	if p.regionMods == nil {
+		p.regionMods = map[*ssa.Function]*ModSet{}
+	}
+	p.regionMods[fn] = nil // recursion guard
+	ra := NewRegionAnalysis(p)
+	ra.RunRoots([]*ssa.Function{fn}, func(f *ssa.Function, i int) AV {
+		if pointerLike(f.Params[i].Type()) {
+			return AV{R: aC, E: aC}
+		}
+		return AV{}
+	})
+	for k := range ra.unresolved {
+		if !strings.Contains(k, "no known target") {
+			return nil
+		}
+	}
+	if os.Getenv("GOVC_VERBOSE") != "" {
+		fmt.Fprintf(os.Stderr, "regionModset(%s): %d writes, unresolved %v\n", fnDisplay(fn), len(ra.writes), ra.unresolved)
+		for _, w := range ra.sortedWrites() {
+			if w.Atoms == 0 || w.Atoms&^aF != 0 {
+				fmt.Fprintf(os.Stderr, "regionModset(%s): %s %s %s atoms=%s\n", fnDisplay(fn), w.Fn, w.Pos, w.What, w.Atoms)
+			}
+		}
+	}
+	for _, w := range ra.writes {
+		if w.Atoms == 0 {
+			ra.lostTrack = true
+		}
+	}
+	if ra.lostTrack {
+		if os.Getenv("GOVC_VERBOSE") != "" {
+			fmt.Fprintf(os.Stderr, "regionModset(%s): lost track\n", fnDisplay(fn))
+		}
+		return nil
+	}
+	ms := newModSet()
+	for _, w := range ra.writes {
+		if w.Ins == nil {
+			return nil
+		}
+		mi := &modInfo{ms: newModSet(), globalW: map[string]bool{}}
+		p.instrLocal(u, w.Ins, mi)
+		lvl := int8(2)
+		if w.Atoms&^aF == 0 && w.Atoms != 0 {
+			lvl = 1
+		}
+		if strings.HasPrefix(w.What, "buffer write") {
+			mi.ms.add(builderVar(u), 2)
+		}
+		for v := range mi.ms.vars {
+			ms.add(v, lvl)
+		}
+	}
+	// allocation sites initialise fresh objects: every Alloc/Make* in reached functions
+	// (their zeroing writes are level 1 by construction); take them from the syntactic mod-set
+	syn := p.modsetNoFix(u, fn)
+	for v, l := range syn.vars {
+		if l == 1 {
+			ms.add(v, 1)
+		}
+	}
+	p.regionMods[fn] = ms
+	return ms
 }
